@@ -134,7 +134,7 @@ type Server struct {
 	cut      map[string]bool // client -> refused (connections reset + dials refused)
 	mute     map[string]bool // client -> requests read but never answered (zkDCS-only engine)
 	conns    map[string]map[net.Conn]bool
-	live     map[string]int // client -> number of established, session-bearing connections
+	live     map[string]map[net.Conn]bool // client -> established, session-bearing connections
 
 	// Before is called under the server mutex before a request is applied. It must not block
 	// and must not call back into the server.
@@ -156,7 +156,7 @@ func New() *Server {
 		cut:      map[string]bool{},
 		mute:     map[string]bool{},
 		conns:    map[string]map[net.Conn]bool{},
-		live:     map[string]int{},
+		live:     map[string]map[net.Conn]bool{},
 	}
 }
 
@@ -238,6 +238,9 @@ func (z *Server) expireLocked(s *session, why string) {
 	}
 	walk(z.root, "")
 	if s.conn != nil {
+		if z.live[s.client] != nil {
+			delete(z.live[s.client], s.conn)
+		}
 		s.conn.Close()
 	}
 }
@@ -447,6 +450,7 @@ func (z *Server) Cut(client string, on bool) {
 			toClose = append(toClose, c)
 		}
 		z.conns[client] = nil
+		z.live[client] = nil
 	}
 	z.mu.Unlock()
 	for _, c := range toClose {
@@ -465,6 +469,7 @@ func (z *Server) Outage(on bool) {
 				toClose = append(toClose, c)
 			}
 			z.conns[cl] = nil
+			z.live[cl] = nil
 		}
 	}
 	z.mu.Unlock()
@@ -488,6 +493,7 @@ func (z *Server) ResetConns(client string) {
 		toClose = append(toClose, c)
 	}
 	z.conns[client] = nil
+	z.live[client] = nil
 	z.mu.Unlock()
 	for _, c := range toClose {
 		c.Close()
@@ -498,7 +504,7 @@ func (z *Server) ResetConns(client string) {
 func (z *Server) Established(client string) bool {
 	z.mu.Lock()
 	defer z.mu.Unlock()
-	return z.live[client] > 0 && !z.down && !z.cut[client] && !z.mute[client]
+	return len(z.live[client]) > 0 && !z.down && !z.cut[client] && !z.mute[client]
 }
 
 // IsCut reports whether dials by the client are refused.
@@ -723,11 +729,14 @@ func (z *Server) Serve(c net.Conn, client string) {
 	e.i32(int32(s.timeout / time.Millisecond))
 	e.i64(s.id)
 	e.buf(passwd)
-	z.live[client]++
+	if z.live[client] == nil {
+		z.live[client] = map[net.Conn]bool{}
+	}
+	z.live[client][c] = true
 	z.mu.Unlock()
 	defer func() {
 		z.mu.Lock()
-		z.live[client]--
+		delete(z.live[client], c)
 		if z.conns[client] != nil {
 			delete(z.conns[client], c)
 		}
